@@ -67,6 +67,13 @@ def run(ctx, rep):
     check_revert_latest(fx, rep)
     check_plain_reverts(fx, rep)
     check_add_transitions(fx, rep)
+    # the transitions merged here are produced by the CacheAccount operations: what they record as
+    # previous status / previous info / storage_was_destroyed is C15 R3 (and the decision which
+    # operation an executed account maps to is C15 R1)
+    import engine
+    sub = engine.SubReport(rep, 'C15')
+    c15.check_cache_account(fx, sub)
+    c15.check_apply(fx, sub)
 
 
 def check_revert_latest(fx, rep):
